@@ -2,6 +2,7 @@ import Driver.Util
 import GrVerif.Model.Pass
 import GrVerif.Proofs.Fsm
 import GrVerif.Model.Position
+import GrVerif.Proofs.IndexPerm
 namespace Driver.Shape
 open GrVerif.Vm GrVerif.Seg GrVerif.Action GrVerif.Pass Driver
 
@@ -103,9 +104,9 @@ def step (line : String) : String :=
         let slots := l.map fun i =>
           let sl := seg.get i
           let o := pr.2.getPos i
-          s!"s:{sl.gid},{sl.before},{sl.after},{sl.original},{posIn l sl.parent},{posIn l sl.child},{posIn l (segF.get i).sibling},{showR o.1},{showR o.2},{sl.advX}"
+          s!"s:{sl.gid},{sl.before},{sl.after},{sl.original},{posIn l sl.parent},{posIn l sl.child},{posIn l (segF.get i).sibling},{showR o.1},{showR o.2},{sl.advX},{sl.index}"
         let tb := String.join ((ps.splitOn "|").zip passes |>.map fun (src, p) => trieBit p (parsePats src))
-        String.intercalate " " (s!"trie={tb} loop={cx.vIter}/{cx.vBound} passes={cx.vCalls} exceeded={if cx.vExceeded then 1 else 0} n={seg.numGlyphs} walk={l.length} adv={showR pr.1.1},{showR pr.1.2}" :: slots)
+        String.intercalate " " (s!"trie={tb} loop={cx.vIter}/{cx.vBound} passes={cx.vCalls} exceeded={if cx.vExceeded then 1 else 0} noid={if posNoIDCheck font then 1 else 0} n={seg.numGlyphs} walk={l.length} adv={showR pr.1.1},{showR pr.1.2}" :: slots)
     | _, _, _, _, _ => "bad-op"
   | _, _, _, _, _, _ => "bad-op"
 
